@@ -552,6 +552,25 @@ pub fn gen_c13(o: &mut Out, tier: &str, seed: u64) {
             }
         }
     }
+    // related keys used one after the other on one thread: halves exchanged, equal halves, the same bit flipped in
+    // both halves, complement; a ciphertext opens under its own key only, whatever key was used just before
+    for _ in 0..(if th { 20 } else { 3 }) {
+        let k0 = r.bytes(16);
+        let mut related: Vec<Vec<u8>> = vec![k0.clone()];
+        let mut sw = k0[8..].to_vec(); sw.extend(&k0[..8]); related.push(sw);
+        let mut eq = k0[..8].to_vec(); eq.extend(&k0[..8]); related.push(eq);
+        let mut fl = k0.clone(); let bit = r.below(64) as usize; fl[bit / 8] ^= 1 << (bit % 8); fl[8 + bit / 8] ^= 1 << (bit % 8); related.push(fl);
+        related.push(k0.iter().map(|b| !b).collect());
+        related.push(vec![0u8; 16]); related.push(vec![0xffu8; 16]); related.push(vec![0x55u8; 16]); related.push(vec![0xaau8; 16]);
+        let cts: Vec<Vec<u8>> = related.iter().enumerate().map(|(i, k)| AeKey::try_from(k.as_slice()).unwrap().encrypt(1000 + i as u64).to_bytes().to_vec()).collect();
+        let mut toks = vec![];
+        for i in 0..related.len() {
+            for j in [i, (i + 1) % related.len(), i] {
+                toks.push(format!("{}:{}", hex(&related[j]), hex(&cts[i])));
+            }
+        }
+        o.op("related-keys.sequence", &format!("ae seq {}", toks.join(" ")));
+    }
     // every single-bit flip of sampled ciphertexts; other keys
     for _ in 0..(if th { 40 } else { 4 }) {
         let kb = r.bytes(16);
